@@ -33,6 +33,10 @@ from vt.harness import c12_gen, c12_ref  # noqa: E402
 DNS = [0, 6, 10, 14]
 HOWS = ["new", "copy", "for_lang", "pickle"]
 WARMUP = "Talk:x"
+# histories of lookups on ONE handler: default namespaces asked in varying order, prefixes that are no namespace anywhere
+HIST_DNS = [0, 6, 10, 14, 0, 10, 1, 2, 4, 12]
+HIST_PREFIXES = ["Star Trek", "2001", "X-Men", "Foo bar", "é", "Re", "Q", "Übung macht", "C++"]
+HIST_RESTS = ["x", "nav", "Voyager", "some page", "é", "1", "a:b"]
 
 
 def ref_sites():
@@ -42,10 +46,15 @@ def ref_sites():
 class World:
     """the NsHandler objects of this process, in creation order"""
 
+    current = None
+
     def __init__(self):
         self.events = []     # [lang, how, src index | None]
         self.insts = []      # (lang, handler)
         self.by_lang = {}
+        self.index = {}      # id(handler) -> position in insts (the handlers stay alive in insts)
+        self.calls = []      # every lookup made on one of these handlers: [len(events) at call time, inst, api, title, dns]
+        World.current = self
 
     def create(self, lang, how, src=None):
         if how == "new":
@@ -60,6 +69,7 @@ class World:
             raise ValueError(how)
         self.events.append([lang, how, src])
         self.insts.append((lang, h))
+        self.index[id(h)] = len(self.insts) - 1
         self.by_lang.setdefault(lang, []).append(len(self.insts) - 1)
         try:
             h.splitname(WARMUP)      # first use
@@ -67,12 +77,56 @@ class World:
             pass
         return len(self.insts) - 1
 
-    def rebuild(self, events):
-        for lang, how, src in events:
+    def rebuild(self, events, calls=None):
+        """re-create the handlers in order; `calls` (chronological) are re-issued at the point of the history where they were
+        made: a call logged with n handlers in existence runs after the n-th creation and before the next one"""
+        calls = list(calls or [])
+        ci = 0
+        for j, (lang, how, src) in enumerate(events):
+            while ci < len(calls) and calls[ci][0] <= j:
+                self.reissue(calls[ci])
+                ci += 1
             self.create(lang, how, src)
+        while ci < len(calls):
+            self.reissue(calls[ci])
+            ci += 1
+
+    def reissue(self, call):
+        _nev, k, api, title, dns = call
+        (real_fq if api == "fq" else real_split)(self.insts[k][1], title, dns)
+
+    def calls_for(self, k, ncalls):
+        """the first `ncalls` logged lookups that can have shaped handler k: those on k and on the handlers k was pickled from"""
+        anc = set()
+        while k is not None and k not in anc:
+            anc.add(k)
+            k = self.events[k][2]
+        return [list(c) for c in self.calls[:ncalls] if c[1] in anc]
+
+
+def log_call(h, api, title, dns):
+    w = World.current
+    if w is not None:
+        k = w.index.get(id(h))
+        if k is not None:
+            w.calls.append((len(w.events), k, api, title, dns))
+
+
+def fresh_handler(lang):
+    """a handler nobody has asked anything yet, from the same siteinfo"""
+    return nshandling.NsHandler(siteinfo.get_siteinfo(lang))
+
+
+def real_fq(h, title, dns):
+    log_call(h, "fq", title, dns)
+    try:
+        return h.get_fqname(title, defaultns=dns)
+    except Exception as e:  # noqa: BLE001
+        return ["EXC", type(e).__name__, str(e)[:80]]
 
 
 def real_split(h, title, dns):
+    log_call(h, "split", title, dns)
     try:
         ns, partial, full = h.splitname(title, defaultns=dns)
         return [ns, partial, full]
@@ -95,6 +149,14 @@ def oracle(h, site, lang, dns, title, res, expect=None):
     probs = []
     evals = []
     want = c12_ref.canon(site, title, dns)
+    # history independence: the answer is a function of (site, title, default namespace), so a handler that has answered
+    # other lookups before must say what a handler just made from the same siteinfo says
+    r0 = real_split(fresh_handler(lang), title, dns)
+    if (r0[:2] != res[:2]) if res[0] == "EXC" else (r0 != res):
+        probs.append(("history", "splitname(%r, %d) = %r on a handler that answered other lookups before, %r on a handler just "
+                      "made from the same siteinfo" % (title, dns, res, r0)))
+        if res[0] == "EXC":
+            return probs, evals
     if res[0] == "EXC":
         if res[1] == "KeyError" and dns not in site["star"]:
             return [], evals
@@ -133,6 +195,54 @@ def oracle(h, site, lang, dns, title, res, expect=None):
     return probs, evals
 
 
+def oracle_fq(h, site, lang, dns, title, fq):
+    """the oracle on one real get_fqname(title, dns) (the key NuWiki, the expander and the fetcher use)"""
+    probs = []
+    f0 = real_fq(fresh_handler(lang), title, dns)
+    if isinstance(fq, list):
+        if fq[1] == "KeyError" and dns not in site["star"]:
+            return []
+        return [("exception", "get_fqname raised %s: %s" % (fq[1], fq[2]))]
+    want = c12_ref.canon(site, title, dns)
+    if want is not None and fq != want[2]:
+        probs.append(("site-definition", "get_fqname(%r, %d) = %r, the site's own siteinfo defines %r" % (title, dns, fq, want[2])))
+    if f0 != fq:
+        probs.append(("history", "get_fqname(%r, %d) = %r on a handler that answered other lookups before, %r on a handler just "
+                      "made from the same siteinfo" % (title, dns, fq, f0)))
+    return probs
+
+
+def history_group(rng, gen, sites):
+    """2-8 lookups (splitname / get_fqname) to be issued in a row on ONE handler: one or two prefixes (a text that is no
+    namespace anywhere, a namespace name of ANOTHER site, a namespace name/alias of this site; letter case varied), each call
+    with its own remainder and its own default namespace, in random order"""
+    lang = rng.choice(sorted(sites))
+    _star, names = gen.names[lang]
+    own = {m.lower() for _i, m, _k in names}
+    foreign = [n for n in gen.all_names if n.lower() not in own]
+    prefixes = []
+    for _ in range(rng.choice([1, 1, 2])):
+        q = rng.random()
+        if q < 0.45 or not names:
+            prefixes.append(rng.choice(HIST_PREFIXES))
+        elif q < 0.65 and foreign:
+            prefixes.append(rng.choice(foreign))
+        else:
+            prefixes.append(rng.choice(names)[1])
+    calls = []
+    for _ in range(rng.choice([2, 2, 3, 4, 6, 8])):
+        p = rng.choice(prefixes)
+        if rng.random() < 0.5:
+            p = gen.casevar(p)
+        t = p + rng.choice([":", ":", ": ", " :", ":_", " : "]) + rng.choice(HIST_RESTS)
+        if rng.random() < 0.08:
+            t = rng.choice(HIST_RESTS)
+        if rng.random() < 0.1:
+            t = ":" + t
+        calls.append([rng.choice(["split", "split", "fq"]), t, rng.choice(HIST_DNS)])
+    return {"kind": "history", "lang": lang, "how": rng.choice(HOWS[:3] + [None, None]), "calls": calls}
+
+
 def site_order(seed, shard, langs):
     """creation order of the first handler of every site: a permutation per shard pair, reversed in the odd shard"""
     order = list(langs)
@@ -157,11 +267,14 @@ def run(seed, shard, ngroups, exe, corpus):
     groups.extend(gen.sweep())
     for _ in range(ngroups):
         groups.append(gen.group())
+    ncorpus = sum(1 for g in groups if g["kind"] == "corpus")
+    for _ in range(max(60, ngroups // 2)):
+        groups.insert(rng.randrange(ncorpus, len(groups) + 1), history_group(rng, gen, sites))
     evals = []       # (lang, dns, title, real result)
     hits = []
     digests = set()
     n_eval = 0
-    dist = {"ns": 0, "plain": 0, "wild": 0, "foreign": 0, "sweep_own": 0, "sweep_foreign": 0, "corpus": 0, "spellings": 0, "reeval": 0, "exc": 0, "found_ns": 0, "main_ns": 0,
+    dist = {"ns": 0, "plain": 0, "wild": 0, "foreign": 0, "sweep_own": 0, "sweep_foreign": 0, "corpus": 0, "history": 0, "history_lookups": 0, "history_same_prefix_other_dns": 0, "spellings": 0, "reeval": 0, "exc": 0, "found_ns": 0, "main_ns": 0,
             "len_sum": 0, "non_bmp": 0, "with_marks": 0, "lead_colon": 0, "judged_by_site_reference": 0, "space_runs_ge3": 0,
             "handlers_created": 0, "handlers_by_pickle": 0}
     samples = []
@@ -171,13 +284,47 @@ def run(seed, shard, ngroups, exe, corpus):
             lg = rng.choice(langs)
             how = rng.choice(HOWS)
             world.create(lg, how, rng.choice(world.by_lang[lg]) if how == "pickle" else None)
+        if g["kind"] == "history":
+            # several lookups in a row on one handler (a new one or a living one); every answer is judged on its own
+            lang = g["lang"]
+            site = sites[lang]
+            k = world.create(lang, g["how"]) if g["how"] else rng.choice(world.by_lang[lang])
+            h = world.insts[k][1]
+            seen_prefix = {}
+            for api, t, dns in g["calls"]:
+                nev, ncalls = len(world.events), len(world.calls)
+                dist["history_lookups"] += 1
+                pre = t.split(":", 1)[0].replace("_", " ").strip().lower() if ":" in t else None
+                if pre is not None and seen_prefix.get(pre, {dns}) != {dns}:
+                    dist["history_same_prefix_other_dns"] += 1
+                if pre is not None:
+                    seen_prefix.setdefault(pre, set()).add(dns)
+                if api == "fq":
+                    fq = real_fq(h, t, dns)
+                    probs = oracle_fq(h, site, lang, dns, t, fq)
+                else:
+                    res = real_split(h, t, dns)
+                    evals.append((lang, dns, t, res))
+                    n_eval += 1
+                    if c12_gen.nontrivial(t):
+                        digests.add(hashlib.blake2b(repr((lang, dns, t)).encode("utf8", "replace"), digest_size=8).hexdigest())
+                    probs, extra = oracle(h, site, lang, dns, t, res, None)
+                    for e in extra:
+                        evals.append(e)
+                        dist["reeval"] += 1
+                if probs and len(hits) < 40:
+                    kind, detail = probs[0]
+                    hits.append({"kind": kind, "detail": detail, "kinds": sorted({p[0] for p in probs}), "lang": lang, "dns": dns,
+                                 "title": t, "group": "history", "expect": None, "history": [list(e) for e in world.events[:nev]],
+                                 "inst": k, "api": api, "calls": world.calls_for(k, ncalls)})
+            continue
         for lang in g.get("langs") or [g["lang"]]:
             site = sites[lang]
             results = []
             for t in g["spellings"]:
                 k = rng.choice(world.by_lang[lang])
                 h = world.insts[k][1]
-                nev = len(world.events)
+                nev, ncalls = len(world.events), len(world.calls)
                 res = real_split(h, t, g["dns"])
                 results.append(res)
                 evals.append((lang, g["dns"], t, res))
@@ -212,7 +359,7 @@ def run(seed, shard, ngroups, exe, corpus):
                     kind, detail = probs[0]
                     hits.append({"kind": kind, "detail": detail, "kinds": sorted({p[0] for p in probs}), "lang": lang, "dns": g["dns"],
                                  "title": t, "group": g["kind"], "expect": expect, "history": [list(e) for e in world.events[:nev]],
-                                 "inst": k})
+                                 "inst": k, "api": "split", "calls": world.calls_for(k, ncalls)})
             if len(samples) < 4 and g["kind"] in ("ns", "plain") and any(not c.isascii() for c in g["spellings"][0]):
                 samples.append({"site": lang, "defaultns": g["dns"], "spellings": g["spellings"][:3], "result": results[0]})
     dist["handlers_created"] = len(world.events)
@@ -250,9 +397,13 @@ def judge(c):
     sites = ref_sites()
     world = World()
     history = c.get("history") or [[c["lang"], "new", None]]
-    world.rebuild(history)
+    world.rebuild(history, c.get("calls"))
     k = c.get("inst", len(world.insts) - 1)
     h = world.insts[k][1]
+    if c.get("api") == "fq":
+        res = real_fq(h, c["title"], c["dns"])
+        probs = oracle_fq(h, sites[c["lang"]], c["lang"], c["dns"], c["title"], res)
+        return res, probs, (h, sites[c["lang"]])
     res = real_split(h, c["title"], c["dns"])
     probs, _ = oracle(h, sites[c["lang"]], c["lang"], c["dns"], c["title"], res, c.get("expect"))
     return res, probs, (h, sites[c["lang"]])
@@ -348,9 +499,102 @@ def shrink_title(c, kinds):
     return {"title": t, "dns": dns, "kind": probs[0][0], "detail": probs[0][1]}
 
 
+def sub_history(history, calls, keep):
+    """closure(history, keep) with the logged lookups carried along (those on dropped handlers go, positions are renumbered)"""
+    ev, remap = closure(history, keep)
+    kept = sorted(remap)
+    out = [[sum(1 for i in kept if i < nev), remap[k], api, t, d] for nev, k, api, t, d in calls if k in remap]
+    return ev, out, remap
+
+
+def minimise_with_calls(c, full, k, calls):
+    """the failure needs earlier lookups on the handler: shortest history of handlers, then the shortest SEQUENCE of earlier
+    lookups (order kept), then plainer titles; every candidate is judged in a forked child"""
+    def attempt(d):
+        return in_child(lambda: [list(p) for p in judge(d)[1]])
+
+    cur = dict(c, history=full, inst=k, calls=calls)
+    first = attempt(cur)
+    ev, cl, remap = sub_history(full, calls, [k])
+    cand = dict(cur, history=ev, inst=remap[k], calls=cl)
+    if attempt(cand):
+        cur = cand
+    # delta debugging over the earlier lookups: drop chunks, halve the chunk size
+    n = 2
+    while cur["calls"]:
+        cl = cur["calls"]
+        chunk = max(1, len(cl) // n)
+        removed = False
+        for i in range(0, len(cl), chunk):
+            cand = dict(cur, calls=cl[:i] + cl[i + chunk:])
+            if attempt(cand):
+                cur, removed = cand, True
+                n = max(n - 1, 2)
+                break
+        if not removed:
+            if chunk == 1:
+                break
+            n = min(len(cl), n * 2)
+    # handlers: plain constructor instead of another route; drop what is not needed
+    for i in range(len(cur["history"])):
+        if cur["history"][i][1] != "new":
+            hist = [list(e) for e in cur["history"]]
+            hist[i] = [hist[i][0], "new", None]
+            cand = dict(cur, history=hist)
+            if attempt(cand):
+                cur = cand
+    keep = sorted({cur["inst"]} | {x[1] for x in cur["calls"]})
+    ev, cl, remap = sub_history(cur["history"], cur["calls"], keep)
+    cand = dict(cur, history=ev, inst=remap[cur["inst"]], calls=cl)
+    if len(ev) < len(cur["history"]) and attempt(cand):
+        cur = cand
+
+    # plainer lookups: remainder 'x', no decoration around the prefix, splitname instead of get_fqname, default namespace 0
+    def plainer(t):
+        if ":" not in t:
+            return ["x"]
+        pre = t.split(":", 1)[0]
+        return [" ".join(pre.replace("_", " ").split()) + ":x", pre + ":x"]
+
+    for t2 in plainer(cur["title"]):
+        cand = dict(cur, title=t2, expect=None)
+        if t2 != cur["title"] and attempt(cand):
+            cur = cand
+            break
+    for j in range(len(cur["calls"])):
+        nev, kk, api, t, d = cur["calls"][j]
+        for alt in [[nev, kk, "split", t2, d] for t2 in plainer(t)] + [[nev, kk, "split", t, d]]:
+            if alt != cur["calls"][j]:
+                cl = [list(x) for x in cur["calls"]]
+                cl[j] = alt
+                cand = dict(cur, calls=cl)
+                if attempt(cand):
+                    cur = cand
+                    break
+    if cur["dns"] != 0:
+        cand = dict(cur, dns=0)
+        if attempt(cand):
+            cur = cand
+    final = attempt(cur)
+    if not final:
+        cur, final = dict(c, history=full, inst=k, calls=calls), first
+    cur["reproduced"] = True
+    cur["problems"] = final
+    cur["sites_in_history"] = [e[0] for e in cur["history"]]
+    return cur
+
+
 def minimise(c):
     full = c.get("history") or [[c["lang"], "new", None]]
     k = c.get("inst", len(full) - 1)
+    if c.get("calls"):
+        with_calls = in_child(lambda: [list(p) for p in judge(dict(c, history=full, inst=k))[1]])
+        without = in_child(lambda: [list(p) for p in judge(dict(c, history=full, inst=k, calls=[]))[1]])
+        if with_calls and not without:
+            return minimise_with_calls(c, full, k, c["calls"])
+        if not with_calls and not without:
+            return {"reproduced": False}
+    c = dict(c, calls=[])
     base = dict(c)
 
     def attempt(events, inst):
